@@ -14,5 +14,5 @@ CONSTANTS
   Defect_LatePool = FALSE
   Defect_ReconnectInline = FALSE
   Mut = "none"
-INVARIANTS TypeOK NoPanic AllClosedAfterClose QueryAfterClose CancelAfterPools
+INVARIANTS TypeOK ListenersTracked NoQueueAfterStop NoPanic AllClosedAfterClose QueryAfterClose CancelAfterPools
 
